@@ -205,6 +205,10 @@ def check_balance(image, seg, user):
 class MonLoader(RealLoader):
     def load(self, instructions):
         self._pre = list(instructions) if instructions is not None else []
+        if instructions is not None and not isinstance(instructions, list):
+            # a one-shot iterable: the copy just taken is what the real loader
+            # gets, so that looking does not use up what it looks at
+            instructions = list(self._pre)
         return super().load(instructions)
 
     def get_code(self):
